@@ -60,6 +60,36 @@ pub fn run_c15(out: &mut Out, rng: &mut Rng, tier: Tier) -> String {
             }
         }
     }
+    // element types without identity: the unit type and a zero-sized type with counted construction / destruction
+    fn anon<E: Elem + Send + Sync>(out: &mut Out, rng: &mut Rng) {
+        for nr in 0..=3usize {
+            for nc in 0..=3usize {
+                for order in ORDERS {
+                    out.case(&format!("iter elem={} zero-sized={} shape={nr}x{nc}{}", E::KIND, E::ZST, ord_ch(order)));
+                    let mut w = World::<E>::new(out);
+                    for variant in SEQ {
+                        for pat in patterns(rng, nr * nc).into_iter().take(2) {
+                            w.new_matrix(out, 0, order, nr, nc, 1);
+                            w.iter_anon(out, 0, variant, &pat);
+                            if w.regs[0].is_some() { w.drop_reg(out, 0); }
+                        }
+                    }
+                    for variant in PAR {
+                        w.new_matrix(out, 0, order, nr, nc, 1);
+                        w.iter_anon(out, 0, variant, "-");
+                        if w.regs[0].is_some() { w.drop_reg(out, 0); }
+                    }
+                    if nr * nc > 1 { out.nontrivial(); }
+                }
+            }
+        }
+    }
+    anon::<()>(out, rng);
+    anon::<Zd>(out, rng);
+    let z = snapshot();
+    if z.zst_live != 0 || z.zst_overdrops != 0 {
+        out.oracle_fail(&format!("zero-sized elements with drop glue: created - dropped = {}, drops beyond creations = {}", z.zst_live, z.zst_overdrops));
+    }
     // after order/shape-changing histories
     let n = if tier == Tier::Quick { 150 } else { 1500 };
     for _ in 0..n {
